@@ -22,7 +22,7 @@ import (
 // step kinds. Client kinds start with 'c', backend kinds with 'b'.
 var clientKinds = []string{
 	"c:retry-ok", "c:retry-no-ech", "c:retry-other-config-id", "c:retry-other-suite", "c:retry-nonempty-enc", "c:retry-fresh-context",
-	"c:retry-replayed-seq0", "c:retry-sni-changed", "c:retry-alpn-changed", "c:retry-inner-without-ech", "c:retry-outer-sni-not-public-name",
+	"c:retry-replayed-seq0", "c:retry-sni-changed", "c:retry-alpn-changed", "c:retry-inner-without-ech", "c:retry-outer-sni-not-public-name", "c:retry-outer-not-tls13",
 	"c:ccs", "c:handshake-other", "c:appdata", "c:alert",
 }
 var backendKinds = []string{"b:server-hello", "b:hrr", "b:ccs", "b:appdata", "b:alert"}
@@ -67,6 +67,10 @@ func (m *model) client(k string) expect {
 		case "c:retry-fresh-context", "c:retry-replayed-seq0":
 			m.dead = true
 			return expect{"abort", "decrypt_error"}
+		case "c:retry-outer-not-tls13":
+			// cannot be handled as a retried ECH hello: it must be refused (the statement does not fix the class)
+			m.dead = true
+			return expect{"abort", "illegal_parameter|decrypt_error|missing_extension"}
 		}
 	}
 	return expect{kind: "verbatim"}
@@ -161,6 +165,15 @@ func (fx *fixture) build(rng *mrand.Rand, k string) (rec []byte, inner *tlswire.
 	case "c:retry-replayed-seq0":
 		s.SetSeq(0)
 	}
+	if k == "c:retry-outer-not-tls13" {
+		if vi := outer.Find(tlswire.ExtSupportedVersions); vi >= 0 {
+			if rng.IntN(2) == 0 {
+				outer.Exts = append(outer.Exts[:vi], outer.Exts[vi+1:]...)
+			} else {
+				outer.Exts[vi] = tlswire.SupportedVersions(0x0303, 0x0302)
+			}
+		}
+	}
 	echgen.SealInto(outer, -1, s, aead, id, enc, encoded)
 	if k == "c:retry-ok" {
 		return outer.HelloRecord(0x0303), in
@@ -221,6 +234,9 @@ func runHistory(r *mon.Run, work string, idx int, rng *mrand.Rand, keys []echgen
 				want = "abort:" + exp.class
 			}
 			r.Count("steps_"+exp.kind, 1)
+			if exp.kind == "abort" && strings.Contains(exp.class, "|") && err != nil && strings.Contains("|"+exp.class+"|", "|"+cls+"|") {
+				want, exp.class = obs, cls
+			}
 			if obs != want {
 				c["step"] = si
 				c["trace"] = trace
@@ -333,6 +349,80 @@ func TestCheck(t *testing.T) {
 		runHistory(r, "random", i, rng, keys, h)
 		r.Eval("rand|" + strings.Join(h, ","))
 	})
+	// the client's reply to a HelloRetryRequest can reach the reader goroutine before the writer goroutine's Write call
+	// has returned: the transport hands the HRR to the client, the client answers at once, the reader consumes the answer.
+	nc := r.N(300, 20000)
+	r.Parallel("reply-before-write-returns", nc, func(i int, rng *mrand.Rand) {
+		key := keys[rng.IntN(len(keys))]
+		aead := []uint16{hpkex.AES128GCM, hpkex.AES256GCM, hpkex.ChaCha20}[rng.IntN(3)]
+		o := echgen.DefaultOpts()
+		o.MaxExtra = 2
+		fx := &fixture{key: key, aead: aead}
+		fx.first = echgen.Gen(rng, key, aead, o)
+		c := map[string]any{"first": fx.first.Describe(), "schedule": "second hello read while Write(HRR) is still in progress"}
+		r.Guard("reply-before-write-returns", i, "concurrent", c, func() {
+			flow, out := echrun.StartFlow(fx.first.Record(), []ech.Key{key.TLSKey()})
+			if out.Err != nil || !out.Accepted {
+				r.Inconclusive("first hello not accepted (%v)", out.Err)
+				return
+			}
+			pre := []string{"", "c:ccs"}[rng.IntN(2)]
+			second, inner := fx.build(rng, "c:retry-ok")
+			hrr, _ := fx.build(rng, "b:hrr")
+			type rd struct {
+				recs [][]byte
+				err  error
+			}
+			got := make(chan rd, 1)
+			consumed := make(chan struct{})
+			fired := false
+			flow.Tap.OnWrite = func(b []byte) {
+				if fired || !bytes.Equal(b, hrr) {
+					return
+				}
+				fired = true
+				if pre != "" {
+					ccs, _ := fx.build(rng, pre)
+					flow.Tap.Feed(ccs)
+				}
+				flow.Tap.Feed(second)
+				<-consumed // the writer resumes only after the reader has the client's answer
+			}
+			go func() {
+				var x rd
+				n := 1
+				if pre != "" {
+					n = 2
+				}
+				for j := 0; j < n && x.err == nil; j++ {
+					var rec []byte
+					rec, x.err = echrun.ReadRecord(flow.Conn)
+					x.recs = append(x.recs, rec)
+				}
+				close(consumed)
+				got <- x
+			}()
+			if _, _, err := flow.Backend(hrr); err != nil {
+				r.Violate("reply-before-write-returns", i, "concurrent:hrr-write-failed", err.Error(), c)
+				return
+			}
+			x := <-got
+			r.Count("concurrent_replies", 1)
+			r.Eval(fmt.Sprintf("conc|%d|%s|%d", aead, pre, len(fx.first.Inner.Exts)))
+			last := x.recs[len(x.recs)-1]
+			switch {
+			case x.err != nil:
+				r.Violate("reply-before-write-returns", i, "concurrent:retry-aborted:"+echrun.Class(x.err), fmt.Sprintf("a well-formed retry read while Write(HRR) was in progress was aborted: %v", x.err), c)
+			case bytes.Equal(last, second):
+				r.Violate("reply-before-write-returns", i, "concurrent:retry-forwarded-undecrypted", "the client's second hello, read while the Write of the HelloRetryRequest had not returned yet, was forwarded verbatim instead of being handled as a retried ECH hello", c)
+			case len(last) < 5 || !bytes.Equal(last[5:], inner.Message()):
+				r.Violate("reply-before-write-returns", i, "concurrent:retry-wrong-bytes", "the retried hello was replaced by something other than its inner hello", c)
+			default:
+				r.Count("concurrent_retries_rewritten", 1)
+			}
+		})
+	})
+	r.Floor("concurrent_retries_rewritten", int64(nc*9/10))
 	r.Floor("histories", int64(len(hists)+n)*9/10)
 	r.Floor("retries_rewritten", 200)
 	r.Floor("aborts_checked", 500)
